@@ -6,11 +6,12 @@
    Statement keys are 1-based positions in the script, as in DAGAnalyzer.dependencies.
 
    What is transcribed from the code (and compared with it field by field on every run, tie T-dag):
-     promote_impl     visit_Start's unknown-variable promotion (component-looking names that are `:=` outputs become inputs)
+     promote_impl     visit_Start's unknown-variable promotion (component-looking names that another statement assigns become inputs)
      last_def         load_edges' ref_to_keys (last statement assigning a name)
      edges_of         load_edges (producer key, consumer key) in the code's order
      redefinition_detected   check_overwriting
-     outcome_impl     the error create_dag ends with (cycle check on the last-definition graph BEFORE the overwrite check)
+     outcome_impl     the error create_dag ends with (duplicate assignment first, then cycles of the last-definition graph);
+                      outcome_before_fix = the code before the repair (cycle check BEFORE the overwrite check), kept as a witness
    What is NOT transcribed: networkx' topological_sort.  Every order it returns is validated with is_topo_order. *)
 From Coq Require Import List Bool Arith PeanoNat Relations.
 Import ListNotations.
@@ -136,15 +137,18 @@ Definition outcome_eqb (a b : outcome) : bool :=
 (* what the property asks for: a duplicate is the redefinition error, a cycle the cycle error, in every order *)
 Definition outcome_spec (ss : list stmt) : outcome :=
   if redefinition_detected ss then RedefinitionRejected else if cycle_detected ss then CycleRejected else Accepted.
-(* what create_dag does: cycles of the last-definition graph first, overwriting afterwards *)
+(* what create_dag does: a name assigned twice is rejected first, then cycles of the last-definition graph *)
 Definition outcome_impl (ss : list stmt) : outcome :=
+  if redefinition_detected ss then RedefinitionRejected else if cycle_detected (impl_view ss) then CycleRejected else Accepted.
+(* what create_dag did before the repair: cycles of the last-definition graph first, overwriting afterwards *)
+Definition outcome_before_fix (ss : list stmt) : outcome :=
   if cycle_detected (impl_view ss) then CycleRejected else if redefinition_detected ss then RedefinitionRejected else Accepted.
 
 (* ---------------------------------------------------------------- unknown-variable promotion (visit_Start) *)
 (* raw statement as collected by the visitor: names read as datasets, names met inside clauses that may be components *)
 Record rstmt := RStmt { r_out : name; r_inputs : list name; r_pers : bool; r_unk : list name }.
 
-(* the code looks the unknown name up in `dependency.outputs` only: names assigned with := *)
+(* the code looks the unknown name up in `dependency.outputs` and `dependency.persistent` (before the repair: outputs only) *)
 Definition assigned_nonpers (rs : list rstmt) : list name := map r_out (filter (fun r => negb (r_pers r)) rs).
 Definition assigned_any (rs : list rstmt) : list name := map r_out rs.
 
@@ -152,6 +156,7 @@ Definition promote_with (known : list name) (r : rstmt) : stmt :=
   Stmt (r_out r) (r_inputs r ++ filter (fun v => memb v known) (r_unk r)) (r_pers r).
 Definition unk_left (known : list name) (r : rstmt) : list name := filter (fun v => negb (memb v known)) (r_unk r).
 
-Definition promote_impl (rs : list rstmt) : list stmt := map (promote_with (assigned_nonpers rs)) rs.
+Definition promote_impl (rs : list rstmt) : list stmt := map (promote_with (assigned_any rs)) rs.
 Definition promote_spec (rs : list rstmt) : list stmt := map (promote_with (assigned_any rs)) rs.
-Definition unk_left_impl (rs : list rstmt) : list (list name) := map (unk_left (assigned_nonpers rs)) rs.
+Definition unk_left_impl (rs : list rstmt) : list (list name) := map (unk_left (assigned_any rs)) rs.
+Definition promote_before_fix (rs : list rstmt) : list stmt := map (promote_with (assigned_nonpers rs)) rs.
